@@ -81,10 +81,21 @@ func (t *SpsTable) Split(codec string, cands [][]byte) (ok, ko [][]byte) {
 type Gen struct {
 	R      *Rng
 	Count  func(string)
+	Small  bool // bodies of at most ~120 bytes (malformed-stream cases: many variants per stream)
 	serial uint32
 }
 
 func (g *Gen) size() (int, string) {
+	if g.Small {
+		switch x := g.R.Intn(100); {
+		case x < 15:
+			return g.R.Intn(3), "body0-2"
+		case x < 70:
+			return 3 + g.R.Intn(20), "body3-22"
+		default:
+			return 23 + g.R.Intn(100), "body23-122"
+		}
+	}
 	switch x := g.R.Intn(100); {
 	case x < 14:
 		return g.R.Intn(3), "body0-2"
